@@ -33,27 +33,37 @@ CDef(p) == \A k \in 1..Len(p) : Q!CDef(p[k])
 Coef(p, k) == IF k <= Len(p) THEN p[k] ELSE Q!C0
 RECURSIVE Trim(_)
 Trim(p) == IF Len(p) > 1 /\ p[Len(p)] = Q!C0 THEN Trim(SubSeq(p, 1, Len(p) - 1)) ELSE p
-CK(p) == IF ~CDef(p) \/ Len(p) > MaxDeg + 1 THEN CU ELSE Trim(p)
+CK(p0) == LET p == p0 IN IF ~CDef(p) \/ Len(p) > MaxDeg + 1 THEN CU ELSE Trim(p)
 MaxI(a, b) == IF a > b THEN a ELSE b
 
 CIsReal(p) == \A k \in 1..Len(p) : Q!CIsReal(p[k])
 CIsZero(p) == IsConst(p) /\ Q!CIsZero(p[1])
-CAdd(p, q) == IF IsConst(p) /\ IsConst(q) THEN <<Q!CAdd(p[1], q[1])>>
-              ELSE CK([k \in 1..MaxI(Len(p), Len(q)) |-> Q!CAdd(Coef(p, k), Coef(q, k))])
-CNeg(p)    == [k \in 1..Len(p) |-> Q!CNeg(p[k])]
+\* Polynomials are built with explicit tuple constructors (at most MaxDeg + 1 = 4 coefficients): a value written
+\* as a function constructor [k \in 1..n |-> ...] stays unevaluated in TLC and is evaluated again at every use.
+\* Arguments are bound by LET first for the same reason.
+Map4(F(_), p) == IF IsConst(p) THEN <<F(p[1])>>
+                 ELSE CK(<<F(Coef(p, 1)), F(Coef(p, 2)), F(Coef(p, 3)), F(Coef(p, 4))>>)
+CAdd(p0, q0) == LET p == p0  q == q0 IN
+              IF IsConst(p) /\ IsConst(q) THEN <<Q!CAdd(p[1], q[1])>>
+              ELSE IF ~CDef(p) \/ ~CDef(q) THEN CU
+              ELSE CK(<<Q!CAdd(Coef(p, 1), Coef(q, 1)), Q!CAdd(Coef(p, 2), Coef(q, 2)),
+                        Q!CAdd(Coef(p, 3), Coef(q, 3)), Q!CAdd(Coef(p, 4), Coef(q, 4))>>)
+CNeg(p0)   == LET p == p0 IN Map4(Q!CNeg, p)
 CSub(p, q) == CAdd(p, CNeg(q))
 \* coefficient k (1-based) of the product: sum over i + j = k + 1
 RECURSIVE ConvAt(_, _, _, _)
 ConvAt(p, q, k, i) == IF i > k THEN Q!C0
                       ELSE Q!CAdd(Q!CMul(Coef(p, i), Coef(q, k + 1 - i)), ConvAt(p, q, k, i + 1))
-CMul(p, q) == IF IsConst(p) /\ IsConst(q) THEN <<Q!CMul(p[1], q[1])>>
+CMul(p0, q0) == LET p == p0  q == q0 IN
+              IF IsConst(p) /\ IsConst(q) THEN <<Q!CMul(p[1], q[1])>>
               ELSE IF ~CDef(p) \/ ~CDef(q) THEN CU
-              ELSE CK([k \in 1..(Len(p) + Len(q) - 1) |-> ConvAt(p, q, k, 1)])
-CConj(p)   == [k \in 1..Len(p) |-> Q!CConj(p[k])]          \* L is real
-CRe(p)     == CK([k \in 1..Len(p) |-> Q!CRe(p[k])])
-CIm(p)     == CK([k \in 1..Len(p) |-> Q!CIm(p[k])])
+              ELSE IF ConvAt(p, q, 5, 1) # Q!C0 \/ ConvAt(p, q, 6, 1) # Q!C0 \/ ConvAt(p, q, 7, 1) # Q!C0 THEN CU   \* degree > MaxDeg
+              ELSE CK(<<ConvAt(p, q, 1, 1), ConvAt(p, q, 2, 1), ConvAt(p, q, 3, 1), ConvAt(p, q, 4, 1)>>)
+CConj(p0)  == LET p == p0 IN Map4(Q!CConj, p)          \* L is real
+CRe(p0)    == LET p == p0 IN Map4(Q!CRe, p)
+CIm(p0)    == LET p == p0 IN Map4(Q!CIm, p)
 \* not ring operations: constants only
-CInv(p)    == IF IsConst(p) THEN <<Q!CInv(p[1])>> ELSE CU
+CInv(p0)   == LET p == p0 IN IF IsConst(p) THEN <<Q!CInv(p[1])>> ELSE CU
 CDiv(p, q) == CMul(p, CInv(q))
 CAbs(p)    == IF IsConst(p) THEN <<Q!CAbs(p[1])>> ELSE CU
 CSqrt(p)   == IF IsConst(p) THEN <<Q!CSqrt(p[1])>> ELSE CU
